@@ -11,6 +11,9 @@ CHECKS = {
     "C04": dict(cat="translation_validation", tech="symbolic execution of the real assembler (public API) on free geometry with an uninterpreted kernel; entrywise polynomial identities with UFs decided by cvc5/z3",
                 text="Two paths through the real code (operator on the subspace vs T' A_loc T with the operator on the element-wise full-grid space) are proved equal entry by entry for every geometry and kernel value, on base meshes of <= 6 (8) elements, regular order <= 2 (3), singular order 1 (2), for P1/DP0/DP1/RWG/SNC spaces with segment, support-element and boundary-dof options and scalar, hypersingular and Maxwell operators.",
                 ref="3/C04"),
+    "C03": dict(cat="other", tech="symbolic execution of the real kernel functions, Grid._compute_geometric_quantities, the dense regular/singular assemblers and the singular-rule remap tables (uninterpreted kernel, free geometry, symbolic one-point rule); QF_NRA queries with abstracted sqrt/exp/cos/sin and lemma chaining (rigid motion => invariants => kernel equality), entrywise polynomial identities (z3/cvc5)",
+                text="Bounded symbolic verification: every regular Laplace/Helmholtz/modified Helmholtz kernel is invariant under ALL rigid motions (unit quaternion + translation) and homogeneous under ALL scalings with k -> k/s; geometry arrays obey the translation/scaling laws for every triangle; assembled matrices (regular + singular parts) are permuted term for term by a renumbering of vertices and elements (meshes of 4-7 elements, every geometry and kernel value); the singular-rule remap pairs the same physical point for all 36+36 local vertex orders (edge) and shared-vertex positions; a swapped-normals flag equals a negated normal field. Equality of singular parts under local vertex rotation holds only up to quadrature error and is outside the claim.",
+                ref="3/C03"),
     "C05": dict(cat="other", tech="symbolic execution of the real Helmholtz / modified Helmholtz / Laplace kernel functions (regular, singular, far-field, FMM helper) and of the constructors' wavenumber dispatch; QF_NRA queries with abstracted sqrt/exp/cos/sin + congruence/parity lemmas; forward-mode jets for the first-order term in k (z3/cvc5)",
                 text="Bounded symbolic verification at kernel level for ALL real points, normals and wavenumbers: Helmholtz(0,w) == modified Helmholtz(w) kernels and the constructors' dispatch for k = i*w (boundary and potential), K(-conj k) == conj K(k), single-layer symmetry and ADL(x,y) == DL(y,x), singular == regular variants, and d/dk at k=0 of the Helmholtz kernels (i/4pi resp. 0). The remainder bounds and the symmetry of assembled singular parts are outside the claim. One genuine defect was repaired.",
                 ref="3/C05"),
